@@ -117,9 +117,17 @@ def gather(prop, cfgs, only=None, tier='thorough'):
             if only and not re.search(only, '%s %s %s %s' % (c.family, fn['name'], fn.get('owner'), ' '.join(p['ctype'] for p in fn['params']))):
                 continue
             n += 1
+            repl = {}
+            if getattr(c, 'replace_callees', None):
+                for cal in fn.get('calls', []):
+                    cf = db['functions'].get(cal)
+                    if cf and not cf.get('error') and c.replace_callees(cf):
+                        cc2 = families.contract_for(cf, db)
+                        if cc2 is not None:
+                            repl[cal] = cc2
             for cpart in c.split(tier):
                 try:
-                    ob = P.build_obligation(prop, cfg, db, fn, cpart)
+                    ob = P.build_obligation(prop, cfg, db, fn, cpart, repl)
                 except (P.tu.ExtractionError, P.cxx2c.Abort) as e:
                     problems.append('%s: %s: %s' % (cfg, cn, e))
                     break
@@ -224,7 +232,7 @@ def check_property(prop, tier, configs=None, only=None, keep=False, write_eviden
             cob.is_canary = True
             canaries.append(cob)
         P.run_obligations(obs + canaries, sc, tier)
-        known = [k for k in load_known() if k['property'] == prop and k.get('status') == 'open']
+        known = [k for k in load_known() if (k['property'] == prop or prop in k.get('also_properties', [])) and k.get('status') == 'open']
         n_cbmc = 0
         n_discharged = 0
         n_partial = 0
